@@ -203,7 +203,7 @@ theorem handleRequest_mine {s : Srv} (h : Inv s) {c ts t} (hc : get? s.clients c
 
 theorem handleRequest_notMine {s : Srv} (h : Inv s) {c ts t} (hc : get? s.clients c = some ts)
     (ht : t ∉ ts) :
-    handleRequest s c t = handleDisconnect (s.emit (.errorTo c 0)) c := by
+    handleRequest s c t = handleDisconnect (s.emit (.errorNow c 0)) c := by
   simp [handleRequest, h.notMine t hc, ht]
 
 /-- post-state of a submit -/
@@ -257,6 +257,20 @@ theorem routeUp_eq {s : Srv} (h : Inv s) (m : Mid) (mk : Conn → Out) :
     right
     obtain ⟨c, h1⟩ := h.mt m t hm
     exact ⟨t, c, rfl, h1, by simp [routeUp, hm, h1]⟩
+
+/-- `handle_error` after fix 3a23d26: forwarded iff the mailbox still exists -/
+theorem handleError_eq {s : Srv} (h : Inv s) (m : Mid) (msg : Nat) :
+    (get? s.boxes m = none ∧ handleError s m msg = .ok s) ∨
+    (∃ b t c ts, get? s.boxes m = some b ∧ get? s.m2t m = some t ∧ get? s.tasks t = some (m, c) ∧
+      get? s.clients c = some ts ∧ t ∈ ts ∧
+      handleError s m msg = .ok (s.emit (.errorTo c msg))) := by
+  cases hb : get? s.boxes m with
+  | none => left; simp [handleError, hb]
+  | some b =>
+    right
+    obtain ⟨t, c, ts, h1, h2, h3⟩ := h.bx m b hb
+    have h4 := (h.tk _ _ _ h1).2.1
+    exact ⟨b, t, c, ts, rfl, h4, h1, h2, h3, by simp [handleError, hb, h4, routeUp, h1]⟩
 
 /-! ### preservation of the invariant -/
 
